@@ -224,6 +224,11 @@ def check_loop(ctx, rep):
                   for c in ast.walk(n.test) if isinstance(c, ast.Call)) for n in ast.walk(main))
     rep.check('C15.L', 'MCMC.run::infinite-hastings-guard', isinf_h, W, None,
               "an infinite Hastings term (operator failure) is not tested before the density is used")
+    nan_h = any(isinstance(n, ast.If) and H in names_in(n.test) and any((dotted_name(c.func) or '').split('.')[-1] in ('isnan', 'isfinite')
+                for c in ast.walk(n.test) if isinstance(c, ast.Call)) for n in ast.walk(main))
+    rep.check('C15.L', 'MCMC.run::nan-hastings-guard', nan_h, W, None,
+              f"the Hastings term `{H}` is tested for infinity only: a NaN makes the log acceptance ratio NaN, Python's built-in min(0, nan) is 0, and the proposal is "
+              f"accepted with probability one")
     nan_p = any(isinstance(n, ast.If) and P in names_in(n.test) and any((dotted_name(c.func) or '').split('.')[-1] in ('isnan', 'isfinite')
                 for c in ast.walk(n.test) if isinstance(c, ast.Call)) for n in ast.walk(main))
     rep.check('C15.L', 'MCMC.run::nan-density-guard', nan_p, W, None,
